@@ -35,12 +35,28 @@ func alignedModel(p *Parser, c *Call, r *CallResult) (*Model, int) {
 	if len(m.Events) != len(r.Events) {
 		return nil, n
 	}
-	if m.OK && r.ValueNil && !r.ErrNil {
+	if m.OK && parserFailed(r) {
 		// the same blocks in the same order, but the model matched and the parser
 		// did not: they disagree about matching somewhere (16.10)
 		return nil, n
 	}
 	return m, -1
+}
+
+// parserFailed says whether the parse failed on its own account: no value and
+// an error the parser made itself (the synthetic no-match error), as opposed to
+// a match whose value happens to be nil and whose errors were all returned by
+// code blocks.
+func parserFailed(r *CallResult) bool {
+	if !r.ValueNil || r.ErrNil {
+		return false
+	}
+	for _, e := range r.Errs {
+		if e.InjectedIdx < 0 {
+			return true
+		}
+	}
+	return len(r.Errs) == 0
 }
 
 func modelPositions(p *Parser, c *Call, R0 *CallResult) PosOracle {
@@ -119,10 +135,10 @@ func campaignC05(p *Parser, req *Request, resp *Response) {
 		// the same overall outcome. Where they do not, the difference is about
 		// matching (another property's subject) and decides nothing here, even if
 		// a store happens to differ earlier in the run.
-		realFailed := r.ValueNil && !r.ErrNil
+		realFailed := parserFailed(r)
 		if len(m.Events) != len(r.Events) || (m.OK && realFailed) {
 			resp.stat("unclaimed_divergence", 1)
-			resp.Notes = append(resp.Notes, fmt.Sprintf("unclaimed divergence: model has %d events and ok=%v, real run %d events, value nil=%v, error nil=%v", len(m.Events), m.OK, len(r.Events), r.ValueNil, r.ErrNil))
+			resp.Notes = append(resp.Notes, fmt.Sprintf("unclaimed divergence: model has %d events and ok=%v, real run %d events, value nil=%v, error nil=%v [%s input %q entry %q errors %q]", len(m.Events), m.OK, len(r.Events), r.ValueNil, r.ErrNil, req.ID, call.Input, call.Opts.Entrypoint, errMsgsShort(r)))
 			continue
 		}
 		for i := 0; i < n; i++ {
